@@ -297,7 +297,41 @@ def do_euler(req, conns, tf, jax):
                 pas = np.diag([g._get_passive_block(ref, cfg)[0, 0] for g in sq])
                 act = np.diag([g._get_active_block(ref, cfg)[0, 0] for g in sq])
                 eye = np.eye(len(D))
+                # the relations of C09/RelSpecs.v on the library shims euler() goes through
+                import scipy.linalg
+
+                def dev(a, b):
+                    return float(np.max(np.abs(np.asarray(a) - np.asarray(b))))
+
+                n2 = 2 * len(D)
+                Uo, R = conn.polar(S, side="left")                                  # is_polar_left
+                Uo_, R_, S_ = np.asarray(Uo), np.asarray(R), np.asarray(S)
+                rel = {
+                    "polar_reconstruct": dev(R_ @ Uo_, S_),
+                    "polar_unitary": dev(Uo_ @ np.conj(Uo_).T, np.eye(n2)),
+                    "polar_hermitian_psd": max(dev(R_, np.conj(R_).T),
+                                               max(0.0, -float(np.min(np.linalg.eigvalsh((R_ + np.conj(R_).T) / 2))))),
+                }
+                L = conn.logm(R)                                                    # is_logm
+                rel["logm"] = dev(scipy.linalg.expm(np.asarray(L)), R_)
+                X = conn.sqrtm(R)                                                   # is_sqrtm
+                rel["sqrtm"] = dev(np.asarray(X) @ np.asarray(X), R_)
+                K = np.diag([1.0] * len(D) + [-1.0] * len(D))
+                Z = 1j * (1j * K @ np.asarray(L))[: len(D), len(D):]
+                Zc = xp.asarray(Z)
+                Vs, Sg, Wadj = conn.svd(Zc)                                         # is_svd
+                Vs, Sg, Wadj = np.asarray(Vs), np.asarray(Sg), np.asarray(Wadj)
+                rel["svd_reconstruct"] = dev(Vs @ np.diag(Sg) @ Wadj, Z)
+                rel["svd_unitary"] = max(dev(Vs @ np.conj(Vs).T, np.eye(len(D))), dev(Wadj @ np.conj(Wadj).T, np.eye(len(D))))
+                rel["svd_nonneg"] = max(0.0, -float(np.min(np.real(Sg)))) + float(np.max(np.abs(np.imag(Sg))))
+                from piquasso._math.decompositions import takagi
+
+                Dt, Ut = takagi(Zc, conn)                                           # is_takagi
+                Dt, Ut = np.asarray(Dt), np.asarray(Ut)
+                rel["takagi_reconstruct"] = dev(Ut @ np.diag(Dt) @ Ut.T, Z)
+                rel["takagi_unitary"] = dev(Ut @ np.conj(Ut).T, np.eye(len(D)))
                 res[kind] = {
+                    **rel,
                     "err_passive": float(np.max(np.abs(U @ pas @ V - P))),
                     "err_active": float(np.max(np.abs(U @ act @ np.conj(V) - A))),
                     "err_unitary": float(max(np.max(np.abs(U @ np.conj(U).T - eye)),
